@@ -5,6 +5,7 @@ import GuppyVerif.Util.Sexp
       (apply SIGMA T)         → term          (one `Substituter` pass)
       (star SIGMA T)          → term          (`|σ|` passes)
       (lin ENV T)             → `true` | `false`
+      (cta ENV P0 EXP (N…) ACT) → `mismatch` | `cant-infer i` | `free-vars i` | `oof` | `ok (term…) SIGMA`
     term  ::= (v N) | (bv i) | (cbv i) | (num k) | none | (cv ty val)
             | (fn (flag…) params arg…) | (tup arg…) | (op d arg…) | (st d arg…) | (ta term) | (ca term)
     SIGMA ::= ((N term) …)     ENV ::= ((N…) (N…) (N…) (N…) (N…) (N…))  -- vNoCopy vNoDrop bNoCopy bNoDrop dNoCopy dNoDrop -/
@@ -77,6 +78,16 @@ def handle (line : String) : String :=
     match subst? sg, tm? t with
     | some σ, some t => showTm (applyStar σ t)
     | _, _ => "bad-op"
+  | some (.list [.atom "cta", e, p0, x, fr, a]) =>
+    match env? e, p0.asNat?, tm? x, fr.natList?, tm? a with
+    | some E, some p0, some x, some fr, some a =>
+      match checkAgainst E fuel p0 x fr a with
+      | .oof => "oof"
+      | .mismatch => "mismatch"
+      | .cantInfer i => s!"cant-infer {i}"
+      | .freeVars i => s!"free-vars {i}"
+      | .ok inst σ => "ok (" ++ " ".intercalate (inst.map showTm) ++ ") " ++ showSubst σ
+    | _, _, _, _, _ => "bad-op"
   | some (.list [.atom "lin", e, t]) =>
     match env? e, tm? t with
     | some E, some t => toString (linear E t)
